@@ -174,7 +174,10 @@ impl World {
             let dh: BTreeMap<&Id, u64> = fl.msg.digest().map(|d| d.iter().map(|(id, nd)| (id, nd.heartbeat)).collect()).unwrap_or_default();
             self.update_obs(to, &before, &dh, &after);
             if let Some(reply) = reply {
-                let bytes = chitchat::Serializable::serialize_to_vec(&reply);
+                let bytes = match guarded(|| chitchat::Serializable::serialize_to_vec(&reply)) {
+                    Ok(b) => b,
+                    Err(pm) => return Err(self.viol("C09", "C09.panic", format!("serializing the reply to a hostile datagram panicked on n{to}: {pm}"))),
+                };
                 if self.on("C09") && bytes.len() > codec::MAX_DATAGRAM {
                     let own_digest = codec::decode(&bytes).ok().and_then(|(m, _, _)| m.digest().map(|d| codec::digest_len(d))).unwrap_or(0);
                     if own_digest + 104 <= codec::MAX_DATAGRAM {
